@@ -83,6 +83,7 @@ def units(tier):
     for k in KIND_NAMES:
         us.append({"kind": "lazy", "elem": k})
     us.append({"kind": "sibling-reads-lazy"})
+    us.append({"kind": "index-members"})
     from .. import scale
     for n in scale.sizes(tier):
         if n <= 8193:
@@ -389,10 +390,78 @@ def explore(outer_lazy, outer_eager, names, data, events, depth, sig, case0, r, 
     return out
 
 
+def index_member_shapes(lazy):
+    """members / elements whose layout depends on the position in a repetition (this._index): the lazy variant must agree with the eager one"""
+    import construct as C
+    this = C.this
+    S = C.LazyStruct if lazy else C.Struct
+    A = C.LazyArray if lazy else C.Array
+    return {
+        "lazystruct-over-array/Bytes": S("x" / C.Byte, "in" / C.Array(2, C.Struct("y" / C.Byte, "m" / C.Bytes(this._index & 1), "z" / C.Byte)), "t" / C.Byte),
+        "lazystruct-over-array/If": S("x" / C.Byte, "in" / C.Array(2, C.Struct("y" / C.Byte, "m" / C.If(this._index, C.Byte), "z" / C.Byte)), "t" / C.Byte),
+        "lazystruct-over-array/Prefixed": S("x" / C.Byte, "in" / C.Array(2, C.Prefixed(C.Byte, C.GreedyBytes)), "t" / C.Byte),
+        "array-over-lazystruct/Bytes": C.Struct("a" / C.Array(2, S("y" / C.Byte, "m" / C.Bytes(this._index & 1), "z" / C.Byte)), "t" / C.Byte),
+        "array-over-lazystruct/If": C.Struct("a" / C.Array(2, S("y" / C.Byte, "m" / C.If(this._index, C.Byte), "z" / C.Byte)), "t" / C.Byte),
+        "array-over-lazystruct/Computed": C.Struct("a" / C.Array(3, S("y" / C.Byte, "i" / C.Computed(this._index), "z" / C.Byte)), "t" / C.Byte),
+        "array-over-lazystruct/nested": C.Struct("a" / C.Array(2, S("y" / C.Byte, "s" / C.Struct("m" / C.Bytes(this._._index & 1)), "z" / C.Byte)), "t" / C.Byte),
+        "greedyrange-over-lazystruct/Computed": C.Struct("a" / C.Prefixed(C.Byte, C.GreedyRange(S("y" / C.Byte, "i" / C.Computed(this._index)))), "t" / C.Byte),
+        "repeatuntil-over-lazystruct/Bytes": C.Struct("a" / C.RepeatUntil(lambda o, l, c: len(l) >= 2, S("y" / C.Byte, "m" / C.Bytes(this._index & 1))), "t" / C.Byte),
+        "lazyarray/Bytes": C.Struct("a" / A(3, C.Bytes(this._index & 1)), "t" / C.Byte),
+        "lazyarray/Struct-If": C.Struct("a" / A(2, C.Struct("y" / C.Byte, "m" / C.If(this._index, C.Byte))), "t" / C.Byte),
+        "lazyarray/Computed": C.Struct("a" / A(3, C.Struct("y" / C.Byte, "i" / C.Computed(this._index))), "t" / C.Byte),
+    }
+
+
+def run_index_members(r, only=None):
+    import construct as C
+    datas = [bytes(range(1, 13)), bytes([3, 2, 1, 0] * 3), bytes([1] * 12), bytes([0] * 12)]
+    eager, lazy = index_member_shapes(False), index_member_shapes(True)
+    for name in eager:
+        if only is not None and name != only:
+            continue
+        for data in datas:
+            res = []
+            for d in (eager[name], lazy[name]):
+                s = io.BytesIO(data)
+                try:
+                    with watchdog(3):
+                        v = d.parse_stream(s)
+                        res.append(("ok", T.norm(force_all(v)), s.tell()))
+                except Hang:
+                    res.append(("hang",))
+                except C.ConstructError as e:
+                    res.append(("cerr", type(e).__name__))
+                except Exception as e:
+                    res.append(("foreign", type(e).__name__))
+            r.states += 1
+            r.case(nontrivial=res[0][0] == "ok", outcome="index-member", transitions=2, validated=1)
+            if res[0][0] == "ok" and res[1] != res[0]:
+                r.violation("C16/index-dependent-member-differs/" + name, {"kind": "index-members", "shape": name, "data": data},
+                            "%s on %s: eager %r, lazy %r" % (name, data.hex(), res[0][1:], res[1]))
+    r.sample({"index_member_shapes": list(eager)})
+
+
+def force_all(v):
+    """evaluate every lazy part of a parse result (members of lazy containers, elements of lazy lists, Lazy callables)"""
+    import construct as C
+    if isinstance(v, C.LazyContainer):
+        return {k: force_all(v[k]) for k in v.keys()}
+    if isinstance(v, C.LazyListContainer):
+        return [force_all(v[i]) for i in range(len(v))]
+    if isinstance(v, dict):
+        return {k: force_all(x) for k, x in v.items() if not (isinstance(k, str) and k.startswith("_"))}
+    if isinstance(v, list):
+        return [force_all(x) for x in v]
+    return v
+
+
 def run_unit(unit, tier):
     r = UnitResult()
     r.export_states = True
     k = unit["kind"]
+    if k == "index-members":
+        run_index_members(r)
+        return r
     if k == "lazystruct":
         for spec in unit["lists"]:
             for host in HOSTS:
@@ -673,6 +742,9 @@ def run_interleaved(name, tier, r):
 
 
 def replay(case):
+    if case.get("kind") == "index-members":
+        r = UnitResult(); run_index_members(r, only=case["shape"])
+        return [v for v in r.violations if v["case"]["data"] == case["data"]] or r.violations
     if case.get("kind") == "scale":
         r = UnitResult(); run_scale(case["size"], r)
         return [v for v in r.violations if v["case"] == case]
